@@ -469,6 +469,21 @@ pub fn compare(tee: &Tee) -> Result<(), String> {
     if a != b {
         return Err(format!("RcDom tree differs from the model tree: {} (RcDom vs model)", first_diff(&a, &b)));
     }
+    // document-level state the sink keeps: quirks mode and the list of parse errors
+    if tee.rc.quirks_mode.get() != tee.model.quirks.get() {
+        return Err(format!(
+            "RcDom's quirks_mode is {:?}, the last set_quirks_mode call said {:?}",
+            tee.rc.quirks_mode.get(),
+            tee.model.quirks.get()
+        ));
+    }
+    {
+        let re = tee.rc.errors.borrow();
+        let me = tee.model.errors.borrow();
+        if re.len() != me.len() || re.iter().zip(me.iter()).any(|(a, b)| a.as_ref() != b.as_str()) {
+            return Err(format!("RcDom recorded {} parse error(s), {} were reported to the sink (or their texts differ)", re.len(), me.len()));
+        }
+    }
     // element flags (not part of the dump): the MathML annotation-xml integration-point flag of
     // every element, copies included (the trees have just been found equal in shape)
     {
